@@ -17,6 +17,7 @@ import (
 	"verif/internal/childrun"
 	"verif/internal/ev"
 	"verif/internal/gen"
+	"verif/internal/ledger"
 	"verif/internal/recpr"
 	"verif/internal/scen"
 	"verif/internal/sink"
@@ -41,6 +42,11 @@ type trigger struct {
 	Point   string `json:"point"`            // hook name (between) or step index
 	Step    int    `json:"step"`             // step index for in-flight triggers
 	Version int    `json:"old_version_rank"` // index into B's recorded versions at trigger time (0 = oldest)
+	// Hold keeps back the adjudicator events caused by the honest party's own registrations until
+	// the in-flight update has completed (events of a real chain arrive with block latency).
+	Hold bool `json:"own_registration_events_held_until_update_done,omitempty"`
+	// SubOld: the adversary registers its newest parent state with the oldest sub-channel state.
+	SubOld bool `json:"newest_parent_with_oldest_sub_channel_state,omitempty"`
 }
 
 type witness struct {
@@ -102,7 +108,6 @@ func runAll(s sink.Sink, cfg props.Cfg, n int, stream string, workers int) {
 // returns the number of executions.
 func scenario(s sink.Sink, rng *rand.Rand, sample bool) int {
 	sc := scen.Generate(rng)
-	sc.FinalLast = false
 	if rng.Intn(2) == 0 && len(sc.Steps) > 4 {
 		sc.Steps = sc.Steps[:1+rng.Intn(4)]
 		if sc.Sub != nil && sc.Sub.After > len(sc.Steps) {
@@ -123,8 +128,14 @@ func scenario(s sink.Sink, rng *rand.Rand, sample bool) int {
 			points = append(points, "after-sub-close")
 		}
 	}
+	if sc.FinalLast {
+		points = append(points, "after-final")
+	}
 	for _, p := range points {
 		trigs = append(trigs, trigger{Kind: "between", Point: p, Step: -1})
+		if sc.Sub != nil && strings.HasPrefix(p, "after-sub-steps") {
+			trigs = append(trigs, trigger{Kind: "between", Point: p, Step: -1, SubOld: true})
+		}
 	}
 	for i, st := range sc.Steps {
 		if st.Amount >= 500 {
@@ -135,6 +146,22 @@ func scenario(s sink.Sink, rng *rand.Rand, sample bool) int {
 			k = "in-flight-responder"
 		}
 		trigs = append(trigs, trigger{Kind: k, Point: fmt.Sprintf("step-%d", i), Step: i})
+		trigs = append(trigs, trigger{Kind: k, Point: fmt.Sprintf("step-%d", i), Step: i, Hold: true})
+	}
+	if sc.Sub != nil {
+		for i, st := range sc.Sub.Steps {
+			if st.Amount >= 500 {
+				continue
+			}
+			k := "sub-in-flight-proposer"
+			if st.Who == 1 {
+				k = "sub-in-flight-responder"
+			}
+			for _, hold := range []bool{false, true} {
+				trigs = append(trigs, trigger{Kind: k, Point: fmt.Sprintf("sub-step-%d", i), Step: i, Hold: hold})
+				trigs = append(trigs, trigger{Kind: k, Point: fmt.Sprintf("sub-step-%d", i), Step: i, Hold: hold, SubOld: true})
+			}
+		}
 	}
 	exhaustive := len(sc.Steps) <= 4
 	n := 0
@@ -142,6 +169,9 @@ func scenario(s sink.Sink, rng *rand.Rand, sample bool) int {
 		// version ranks: 0..(max plausible) - the execution maps the rank onto the versions B has
 		// recorded at the trigger time; ranks beyond are skipped
 		maxRank := len(sc.Steps) + 2
+		if tg.SubOld {
+			maxRank = 1
+		}
 		for rank := 0; rank < maxRank; rank++ {
 			if !exhaustive && rng.Intn(len(trigs)*maxRank) >= 4 {
 				continue
@@ -183,7 +213,7 @@ func execute(s sink.Sink, seed int64, sc scen.Scenario, tg trigger, sample bool)
 	fired := false
 	hadVersion := true
 	var advErr error
-	var oldVer, advNewest, newestAtFire uint64
+	var oldVer, advNewest uint64
 	var problems []string
 	newestAtA := func(id channel.ID) (uint64, *channel.State) {
 		var v uint64
@@ -214,7 +244,28 @@ func execute(s sink.Sink, seed int64, sc scen.Scenario, tg trigger, sample bool)
 				txs = append(txs, e)
 			}
 		}
-		if len(txs) < 2 || tg.Version >= len(txs)-1 {
+		if tg.SubOld {
+			// newest parent state, oldest state of a locked sub-channel that has a newer one
+			if len(txs) == 0 || r.SubCh[1] == nil {
+				hadVersion = false
+				return
+			}
+			tg.Version = len(txs) - 1
+			nsub := 0
+			for _, e := range B.Rec.Events() {
+				if e.Kind == recpr.Enabled && e.ID == r.SubCh[1].ID() && e.Current.State != nil {
+					nsub++
+				}
+			}
+			locked := false
+			for _, la := range txs[tg.Version].Current.State.Locked {
+				locked = locked || la.ID == r.SubCh[1].ID()
+			}
+			if nsub < 2 || !locked {
+				hadVersion = false
+				return
+			}
+		} else if len(txs) < 2 || tg.Version >= len(txs)-1 {
 			hadVersion = false // no older version of that rank
 			return
 		}
@@ -230,11 +281,15 @@ func execute(s sink.Sink, seed int64, sc scen.Scenario, tg trigger, sample bool)
 				}
 			}
 		}
+		if tg.Hold {
+			r.W.Ledger.SetHold(func(cause ledger.Call, _ channel.AdjudicatorEvent) bool {
+				return !cause.Adversary && cause.Method == "Register"
+			})
+		}
 		adj := r.W.Ledger.NewAdversaryAdjudicator(B.Addr)
 		advErr = adj.Register(context.Background(), channel.AdjudicatorReq{Params: old.Params, Tx: old.Current, Idx: 1}, subs)
 		// let the honest watcher react; the clock does not move (nobody waits for a timeout)
-		newestAtFire, _ = newestAtA(id)
-		if tg.Kind == "in-flight-responder" {
+		if strings.HasSuffix(tg.Kind, "in-flight-responder") {
 			r.W.QuiesceBusy(1) // we are inside A's update handler
 		} else {
 			r.W.Quiesce()
@@ -259,6 +314,19 @@ func execute(s sink.Sink, seed int64, sc scen.Scenario, tg trigger, sample bool)
 		// A has staged and signed its own proposal and is about to send it when B registers
 		r.OnEvent = func(owner int, e recpr.Event) {
 			if owner == 0 && e.Kind == recpr.SigAdded && r.Step == tg.Step && r.Ch[0] != nil && e.ID == r.Ch[0].ID() {
+				fire()
+			}
+		}
+	case "sub-in-flight-responder":
+		// the same while an update of the sub-channel is in flight
+		r.Gate = func(owner int, cur *channel.State, u client.ChannelUpdate) {
+			if owner == 0 && r.SubStep == tg.Step && r.SubCh[0] != nil && cur.ID == r.SubCh[0].ID() {
+				fire()
+			}
+		}
+	case "sub-in-flight-proposer":
+		r.OnEvent = func(owner int, e recpr.Event) {
+			if owner == 0 && e.Kind == recpr.SigAdded && r.SubStep == tg.Step && r.SubCh[0] != nil && e.ID == r.SubCh[0].ID() {
 				fire()
 			}
 		}
@@ -291,6 +359,15 @@ func execute(s sink.Sink, seed int64, sc scen.Scenario, tg trigger, sample bool)
 		s.Case(desc, false)
 		return true
 	}
+	if tg.Hold {
+		// the in-flight update is done: now the events of A's own registration arrive
+		s.Count("held_own_registration_events_released", int64(r.W.Ledger.ReleaseHeld()))
+		if !r.WaitIdle() {
+			s.Inconclusive("quiescence watchdog")
+			s.Case(desc, false)
+			return true
+		}
+	}
 	id := r.Ch[0].ID()
 	newest, newestState := newestAtA(id)
 	// harness window: a state enabled before the watcher was attached never reached it
@@ -309,37 +386,31 @@ func execute(s sink.Sink, seed int64, sc scen.Scenario, tg trigger, sample bool)
 		s.Case(desc, false)
 		return true
 	}
-	// Class of the history, from what was observed: did the honest party enable a newer state
-	// after the adversary's registration had been answered by the watcher (an update was in
-	// flight), or did the watcher know the newest state when it reacted?
-	class := "watcher-knew-newest-state"
-	{
-		// stamp of the adversary's Register call, of the publication of A's newest version, and
-		// of subscribers of the channel going back to waiting
-		var advStamp, pubNewest int64 = -1, -1
-		for _, c := range r.W.Ledger.Calls() {
-			if c.Adversary && c.Method == "Register" && advStamp < 0 {
-				advStamp = c.Stamp
-			}
-		}
-		vs, ss := A.Published(id), A.PublishedStamps(id)
+	// Class of a stale registration, from what was observed on one shared event counter: the
+	// watcher reacts to adjudicator events only, so the question is whether any registered-event
+	// of that channel was handed to A's watcher after A's newest version had been published to it.
+	// If not, the watcher never had a chance (D24); if yes, it knew the newest state and still
+	// left an older one on the ledger.
+	classOf := func(x channel.ID, newestX uint64) string {
+		pubNewest := int64(-1)
+		vs, ss := A.Published(x), A.PublishedStamps(x)
 		for i, v := range vs {
-			if v == newest && i < len(ss) {
+			if v == newestX && i < len(ss) {
 				pubNewest = ss[i]
 				break
 			}
 		}
-		for _, wr := range r.W.Ledger.Waits() {
-			if wr.ID == id && wr.Stamp > advStamp && pubNewest > wr.Stamp {
-				class = "newest-state-published-after-the-watcher-reacted"
+		for _, d := range r.W.Ledger.Deliveries() {
+			if d.ID == x && d.Tag == "watcher:A" && d.Registered && d.Version < newestX && pubNewest >= 0 && d.Stamp > pubNewest {
+				return "watcher-knew-newest-state"
 			}
 		}
-		if newest > newestAtFire {
-			class = "newest-state-published-after-the-watcher-reacted"
-		}
+		return "newest-state-published-after-the-watcher-reacted"
 	}
+	class := ""
 	if !isReg || regVer < newest {
 		problems = append(problems, fmt.Sprintf("the adversary registered version %d; with the ledger idle and the challenge period still running, version %d is registered but the honest party's newest agreed version is %d", oldVer, regVer, newest))
+		class = classOf(id, newest)
 	}
 	// newest sub-channel states of sub-channels still locked in A's newest parent state
 	if newestState != nil {
@@ -347,6 +418,9 @@ func execute(s sink.Sink, seed int64, sc scen.Scenario, tg trigger, sample bool)
 			sv, _ := newestAtA(la.ID)
 			if rv, _, ok := r.W.Ledger.Registered(la.ID); !ok || rv < sv {
 				problems = append(problems, fmt.Sprintf("sub-channel %x: version %d registered, the honest party's newest is %d", la.ID[:3], rv, sv))
+				if class == "" {
+					class = classOf(la.ID, sv)
+				}
 			}
 		}
 	}
@@ -397,6 +471,9 @@ func execute(s sink.Sink, seed int64, sc scen.Scenario, tg trigger, sample bool)
 			} else if strings.Contains(problems[0], "sub-channel") {
 				kind = "stale-sub-channel-registration"
 			}
+		}
+		if class == "" {
+			class = "watcher-knew-newest-state"
 		}
 		s.Violation("C04/"+kind+"/"+class, problems[0], witness{Scenario: sc, Trigger: tg, Problems: problems, Log: r.Log, Ledger: callStrs})
 	}
